@@ -11,7 +11,7 @@ META = {
                  "transcription of ast's String methods; every tree's source is parsed by the real parser, printed by the real String(), "
                  "parsed again, and the two real trees are compared by a TLC Trace spec",
     "level": "model_checking",
-    "level_text": "TLC explores every abstract tree of depth <= 3 (thorough; in the quick tier the second operand of a depth-3 node is one of five representative trees) (binary operators of Go's five precedence levels plus and/or/not/contains, "
+    "level_text": "TLC explores every abstract tree of depth <= 3 (thorough; in the quick tier the second operand of a depth-3 node is one of four representative trees) (binary operators of Go's five precedence levels plus and/or/not/contains, "
                   "unary - ! ^ * & <- + not, call, index, slice, selector, type assertion, conversions with parenthesised types, composite "
                   "and function literals, assignment/var/send/defer/go/show statements), checks that the reference Print and Parse are "
                   "inverse on all of them, and records for each tree what the transcribed String methods would do. Every tree's source is "
@@ -131,7 +131,9 @@ def model_check(ctx):
     for n, consts in enumerate(cfgs):
         wd = ctx.stage(f"mc{n}", FAMS)
         rig.write_cfg(wd / "MC_ExprPrint.cfg", constants=consts, invariants=["RefRoundTrip", "InBound"])
-        r = ctx.tlc(wd, "MC_ExprPrint", workers=rig.NCPU, timeout=1700, coverage=not ctx.quick, dump=[str(wd / "states.dump")])
+        # (no -coverage: TLC's coverage instrumentation runs out of memory on this module; the two actions are
+        #  checked for vacuity from the dumped states instead)
+        r = ctx.tlc(wd, "MC_ExprPrint", workers=rig.NCPU, timeout=1700, coverage=False, dump=[str(wd / "states.dump")])
         if not r.ok:
             if r.invariant_violated:
                 raise Infra("the REFERENCE printer/parser of ExprPrint.tla is not a round trip (spec bug): %s/MC_ExprPrint.out\n" % wd + rig.tail(r.out, 30))
@@ -141,7 +143,11 @@ def model_check(ctx):
             raise Infra(f"dump has {len(st)} states, TLC reported {r.distinct}")
         states += st
         distinct, generated, wall = distinct + r.distinct, generated + r.generated, wall + r.wall
-        never += r.coverage_zero() if not ctx.quick else []
+        atoms = {"Var"}
+        if not any(x["t"]["k"] in STMT and x["t"]["k"] not in atoms for x in st):
+            never.append("MakeStmt")
+        if not any(x["t"]["k"] not in STMT and x["t"]["c"] and x["t"]["k"] not in ("CompositeLiteral", "Func") for x in st):
+            never.append("GrowExpr")
     seen, uniq = set(), []
     for s in states:
         k = json.dumps(s["t"], sort_keys=True)
@@ -163,8 +169,7 @@ def model_check(ctx):
                    model_counterexample={"what": "implementation-shaped String model: trees for which Parse(IPr(t)) # t (diagnostic, replayed below)",
                                          "trees": sum(1 for s in states if s["pred"]["cls"] != "ok"),
                                          "signatures": sorted("%s %s->%s x%d" % (k + (n,)) for k, n in pred.items())})
-    if not ctx.quick:
-        ctx.cov["actions_never_taken"] = never
+    ctx.cov["actions_never_taken"] = never
     return cases, pred
 
 
@@ -208,7 +213,7 @@ def skey(sig):
 
 
 def run(ctx, only=None):
-    extra = ctx.pick(600, 15000)
+    extra = ctx.pick(400, 12000)
     cf = ctx.work / "cases.ndjson"
     if only is not None:            # replay: the stored case carries everything (tree, prediction, source)
         cases, pred, extra = list(only.values()), {}, 0
